@@ -129,7 +129,11 @@ class FixedMatrix
 
     const FixedArray<T> * getitem(int index) const
     {
-        return new FixedArray<T>(const_cast<T *>(&_ptr[convert_index(index)*_rowStride*_cols*_colStride]),_cols,_colStride);
+        // The row shares the matrix's storage.  Give it a copy of the matrix
+        // (which holds a reference on that storage) as its data handle, so
+        // that the storage outlives the row and everything derived from it
+        // (copies, masked references), not only the row object itself.
+        return new FixedArray<T>(const_cast<T *>(&_ptr[convert_index(index)*_rowStride*_cols*_colStride]),_cols,_colStride,boost::any(*this));
     }
 
     FixedMatrix  getslice(PyObject *index) const
